@@ -5,7 +5,9 @@ Line-protocol driver for C08 (simulated exchange).
 
 Ops
   `init <direct|async> <latency_ms> <fee> <n> <bal>*n <k> <base:quote>*k`   (`bal` is `x` or `total:free`)
-  `open <t> <instr> <B|S> <M|L> <price> <qty> <strategy> <cid>`
+  `open <t> <instr> <B|S> <M|L> <price> <qty> <strategy> <cid> [<ioc|fok|day|gtc|gtcp>]`
+     (time in force: no path of `open_order` reads it and the response repeats it; when the op spells it out
+     the harness prints the RESPONSE's time in force as `echo_tif` after the `echo` line, and so does the model)
   `snap <t>` `balances <t>` `orders <t>` `trades <t> <since>` `cancel <t>`
 `direct` drives `MockExchange::open_order` / `account_snapshot` themselves (only `open` and `snap`;
 the exchange clock never moves, `t` is ignored); `async` goes through `MockExecution` +
@@ -82,8 +84,17 @@ def parseReq : List String → Option (Int × Req)
     | _, _, _, _, _, _, _, _ => none
   | _ => none
 
+def isTif (s : String) : Bool := s == "ioc" || s == "fok" || s == "day" || s == "gtc" || s == "gtcp"
+
+/-- the time in force an `open` op spells out (9th argument), if any -/
+def opTif : List String → Option String
+  | ["open", _, _, _, _, _, _, _, _, tif] => if isTif tif then some tif else none
+  | _ => none
+
 /-- `(t, request)`; `none` = malformed. -/
 def parseOp : List String → Option (Int × Request)
+  | ["open", t, i, sd, kd, p, q, st, cid, tif] =>
+    if isTif tif then (parseReq [t, i, sd, kd, p, q, st, cid]).map fun (t, r) => (t, .openOrder r) else none
   | "open" :: rest => (parseReq rest).map fun (t, r) => (t, .openOrder r)
   | ["snap", t] => t.toInt?.map (·, .fetchSnapshot)
   | ["balances", t] => t.toInt?.map (·, .fetchBalances)
@@ -124,6 +135,12 @@ def resultLines (r : Req) : Result → List String
       s!"nbal {f.asset} {fmtRat f.balance.total} {fmtRat f.balance.free}", s!"nbal_time {f.balance.time}",
       s!"ntrade {fmtTrade f.trade}", s!"ntrade_time {f.trade.time}" ]
 
+/-- the response repeats the request's time in force: `echo_tif` directly after the `echo` line -/
+def withTif (tif : Option String) (lines : List String) : List String :=
+  match tif, lines with
+  | some tf, a :: e :: rest => if e.startsWith "echo " then a :: e :: s!"echo_tif {tf}" :: rest else lines
+  | _, _ => lines
+
 structure MSt where
   async : Bool
   st : State
@@ -151,14 +168,14 @@ def model : Drv (Option MSt) where
             | .ordersOpen, _ => ["orders 0"]
             | .trades ts, _ => tradeLines ts
             | .dropped, _ => ["resp none"]
-            | .order res, .openOrder r => resultLines r res
+            | .order res, .openOrder r => withTif (opTif toks) (resultLines r res)
             | .order _, _ => ["bad-op"]
           (some ⟨true, st'⟩, lines)
         else
           match rq with
           | .openOrder r =>
             let (st', res) := openOrder ms.st r
-            (some ⟨false, st'⟩, resultLines r res)
+            (some ⟨false, st'⟩, withTif (opTif toks) (resultLines r res))
           | .fetchSnapshot => (s, snapLines ms.st.balances ++ ["instruments 0"])
           | _ => (s, ["bad-op"])
       | _, _ => (s, ["bad-op"])
